@@ -1,5 +1,10 @@
 (* CodecFacts.v — lemmas about Codec.v (round trip of the generic constructed-data codec). *)
-From Bac Require Import Base BytesFacts Tag TagFacts Schema Codec.
+From Bac Require Import Base.
+From Bac Require Import BytesFacts.
+From Bac Require Import Tag.
+From Bac Require Import TagFacts.
+From Bac Require Import Schema.
+From Bac Require Import Codec.
 From Coq Require Import ZifyBool ZifyN ZifyNat.
 Ltac Zify.zify_post_hook ::= Z.to_euclidean_division_equations.
 Open Scope N_scope.
